@@ -63,6 +63,10 @@ var sdlAdversarial = []string{
 	`type Query { a: Int } type Query { b: Int }`, `scalar Int type Query { a: Int }`, `scalar Time type Query { a: Time }`, `type Int { a: Int } type Query { a: Int }`,
 	`type __Foo { a: Int } type Query { a: Int }`, `type Query { __a: Int }`, `type Query { a(__x: Int): Int }`, `"""unterminated type Query { a: Int }`, `"unterminated
 type Query { a: Int }`, `type Query { a: Int } """`, `type Query { "" a: Int }`, `type Query { """""" a: Int }`, `type Query { a: Int } #`,
+	"type Query { a: Int }\n}", `type Query { a: Int } )`, `type Query { a: Int } !`, "type Query { a: Int }\xff", `type Query { a: Int } =`, `type Query { a: Int } "`, `type Query { a: Int } @`,
+	`directive @a(x: Int @b) on ARGUMENT_DEFINITION | INPUT_FIELD_DEFINITION directive @b(y: Int @c) on ARGUMENT_DEFINITION | INPUT_FIELD_DEFINITION directive @c(z: Int @b) on ARGUMENT_DEFINITION | INPUT_FIELD_DEFINITION type Query { a: Int }`,
+	`directive @c(z: Int @b) on INPUT_FIELD_DEFINITION directive @b(y: Int @c) on INPUT_FIELD_DEFINITION directive @a(x: Int @b, y: Int @c, z: Int @b) on INPUT_FIELD_DEFINITION type Query { a: Int }`,
+	`directive @a(x: Int @b, y: Int @b) on INPUT_FIELD_DEFINITION directive @b on INPUT_FIELD_DEFINITION | ARGUMENT_DEFINITION type Query { a: Int }`,
 	`type Mutation { a: Int }`, `type Subscription { a: Int }`, `enum Query { A }`, `input Query { a: Int }`, `scalar Query`, `interface Query { a: Int }`, `union Query = Query`,
 	"type Query { a: Int }" + "\n##next-load##\n" + "type Query { b: Int }",
 	"type Query { a: Int }" + "\n##next-load##\n" + "extend type Query { a: Int }" + "\n##next-load##\n" + "extend type Query { b: Int }",
@@ -292,9 +296,41 @@ func fragmentGraph(t *rapid.T) string {
 	return b.String()
 }
 
+// directiveGraph writes a schema document whose directive definitions use each other on their
+// arguments along a drawn graph: chains, diamonds, self loops, cycles and paths leading into a cycle.
+func directiveGraph(t *rapid.T) string {
+	n := rapid.IntRange(1, 6).Draw(t, "nDirs")
+	names := rapid.Permutation([]string{"a", "b", "c", "d", "zz", "M", "d0", "Query"}).Draw(t, "dirNames")[:n]
+	var b strings.Builder
+	if rapid.Bool().Draw(t, "typeFirst") {
+		b.WriteString("type Query { a: Int }\n")
+	}
+	for i, name := range names {
+		fmt.Fprintf(&b, "directive @%s", name)
+		k := rapid.IntRange(0, 3).Draw(t, fmt.Sprintf("d%dn", i))
+		if k > 0 {
+			b.WriteString("(")
+			for j := 0; j < k; j++ {
+				fmt.Fprintf(&b, "p%d: Int", j)
+				for u := 0; u < rapid.IntRange(0, 2).Draw(t, fmt.Sprintf("d%d_%du", i, j)); u++ {
+					fmt.Fprintf(&b, " @%s", rapid.SampledFrom(names).Draw(t, fmt.Sprintf("d%d_%d_%d", i, j, u)))
+				}
+				b.WriteString(" ")
+			}
+			b.WriteString(")")
+		}
+		b.WriteString(" on ARGUMENT_DEFINITION | INPUT_FIELD_DEFINITION | FIELD_DEFINITION\n")
+	}
+	fmt.Fprintf(&b, "type T { f(x: Int @%s): Int @%s }\n", rapid.SampledFrom(names).Draw(t, "useArg"), rapid.SampledFrom(names).Draw(t, "useField"))
+	if rapid.IntRange(0, 3).Draw(t, "split") == 0 {
+		return strings.Replace(b.String(), "\ndirective", SDLNext+"directive", 1)
+	}
+	return b.String()
+}
+
 func genInput(t *rapid.T) *Input {
 	in := &Input{Fault: -1}
-	switch kind := rapid.SampledFrom([]string{"exe-soup", "exe-mutated", "exe-mutated", "exe-adversarial", "exe-adversarial", "exe-valid-badvars", "exe-fragment-graph", "exe-fragment-graph", "sdl-soup", "sdl-mutated", "sdl-mutated", "sdl-adversarial", "sdl-adversarial-mutated", "sdl-multi-load",
+	switch kind := rapid.SampledFrom([]string{"exe-soup", "exe-mutated", "exe-mutated", "exe-adversarial", "exe-adversarial", "exe-valid-badvars", "exe-fragment-graph", "exe-fragment-graph", "sdl-soup", "sdl-mutated", "sdl-mutated", "sdl-adversarial", "sdl-adversarial-mutated", "sdl-multi-load", "sdl-directive-graph",
 		"sdl-valid", "value-soup", "value-bytes", "bytes", "deep-nesting", "writer"}).Draw(t, "kind"); kind {
 	case "exe-fragment-graph":
 		in.Target, in.Text, in.Note = "exe", fragmentGraph(t), kind
@@ -308,6 +344,8 @@ func genInput(t *rapid.T) *Input {
 		in.Target, in.Text, in.Note = "exe", rapid.SampledFrom(adversarial).Draw(t, "adv"), kind
 	case "exe-valid-badvars":
 		in.Target, in.Text, in.Note = "exe", rapid.SampledFrom(validRequests).Draw(t, "valid"), kind
+	case "sdl-directive-graph":
+		in.Target, in.Text, in.Note = "sdl", directiveGraph(t), kind
 	case "sdl-adversarial":
 		in.Target, in.Text, in.Note = "sdl", rapid.SampledFrom(sdlAdversarial).Draw(t, "sadv"), kind
 	case "sdl-adversarial-mutated":
@@ -358,6 +396,9 @@ func genInput(t *rapid.T) *Input {
 	if in.Target != "writer" && rapid.IntRange(0, 4).Draw(t, "fault") == 0 && len(in.Text) > 0 {
 		in.Fault = rapid.IntRange(0, len(in.Text)).Draw(t, "faultAt")
 		in.Mode = rapid.IntRange(0, 4).Draw(t, "faultMode")
+		if rapid.IntRange(0, 2).Draw(t, "faultAtEnd") == 0 {
+			in.Fault = len(in.Text) // the reader misbehaves with the last bytes: error or EOF together with data
+		}
 	}
 	return in
 }
@@ -423,6 +464,25 @@ func TestC03(t *testing.T) {
 	}
 	for _, txt := range sdlAdversarial {
 		one(t.Fatalf, &Input{Target: "sdl", Text: txt, Fault: -1, Note: "sdl-corpus"})
+		if len(txt) > 0 && !strings.Contains(txt, SDLNext) {
+			// the same text from readers that hand over the last bytes together with an error / with io.EOF
+			one(t.Fatalf, &Input{Target: "sdl", Text: txt, Fault: len(txt), Mode: 2, Note: "sdl-corpus-reader"})
+			one(t.Fatalf, &Input{Target: "sdl", Text: txt, Fault: len(txt), Mode: 4, Note: "sdl-corpus-reader"})
+		}
+	}
+	for _, txt := range adversarial {
+		if len(txt) > 0 {
+			one(t.Fatalf, &Input{Target: "exe", Text: txt, Fault: len(txt), Mode: 4, Note: "exe-corpus-reader"})
+		}
+	}
+	for _, txt := range []string{`{a: [1, 2] b: "x"}`, `[1 2 3]`, `"abc"`, `{a: 1}}`, `[1]]`, "1 ", `"a" "`, "{a: 1}\xff", `tru`, `nul`, `-`, `1e`, `$`, `$v`} {
+		for _, mode := range []int{-1, 2, 4} {
+			in := &Input{Target: "value", Text: txt, Fault: -1, Note: "value-corpus"}
+			if mode >= 0 {
+				in.Fault, in.Mode, in.Note = len(txt), mode, "value-corpus-reader"
+			}
+			one(t.Fatalf, in)
+		}
 	}
 	rapid.Check(t, func(rt *rapid.T) { one(rt.Fatalf, genInput(rt)) })
 }
